@@ -311,9 +311,10 @@ func (ufs *Ufs) Walk(req *SrvReq) {
 	fid := req.Fid.Aux.(*ufsFid)
 	tc := req.Tc
 
-	err := fid.stat()
-	if err != nil {
-		req.RespondError(err)
+	// not fid.stat(): it stores its result in the fid, and any number of
+	// walks may start from the same fid at the same time
+	if _, e := os.Lstat(fid.path); e != nil {
+		req.RespondError(toError(e))
 		return
 	}
 
